@@ -4,7 +4,7 @@ PROPS = {}
 HOOK_COMMITS = ["4bf9c3e", "fb2c1fb"]
 NOT_APPLICABLE = {}
 # properties whose check exists but is being brought in line with repairs just made in /repo: not claimed until green
-PENDING = {"C05": "not yet claimed: the check exists (./check C05) but its proofs are being brought in line with the repairs F30/F32/F40 just committed in /repo (the null-ordering and scope-leak witnesses no longer hold)"}
+PENDING = {}
 
 PROPS["C19"] = {
     "gen": ["gen_color_table.py"],
@@ -844,24 +844,32 @@ PROPS["C05"] = {
         "not a typing error: the generator avoids such constants and the oracle exempts the two messages",
         "programs whose tail is not clean (a declaration, break or switch in tail position after value-producing statements) have an "
         "unspecified result: nothing is demanded of them (verdict `unspecified`; 0 such cases are generated)",
-        "statements (let/if/switch/return and the result of a block body) are covered by the streams only; the soundness THEOREM covers all "
-        "expression forms",
+        "the soundness THEOREMS cover all expression forms and all statement forms (scoping included); two clauses of whole-program "
+        "soundness have no theorem and are decided by the streams only: the RESULT clause of a binding (D16: the checker decides it on the "
+        "return terminators of the IR after finalize_completion_values, the specification on the returns and tail expressions of the "
+        "source) and the parameters of a callback FUNCTION against the signal (D18); the acceptance direction (well-typed => accepted) "
+        "is decided by the c05-accept stream",
     ],
     "level_text": "proof of the per-rule characterisations for all inputs: is_assignable = identity/upcast/enum-flags alias/literal adoption "
                   "(is_assignable_iff, never a conversion), deduce_type = one common type (no upcast), pick_type_cast = the documented cast "
                   "table (pick_type_cast_is_the_cast_table), operator token tables, per-operator admissible-type tables of the dynamic path "
                   "(dynamic_unary_iff/_type, dynamic_binary_iff/_type) and of the constant path (constant_unary_iff/_type, "
-                  "constant_binary_iff/_type), CONSISTENCY of the two paths with the exact exceptions (QString-typed constants over-rejected, "
-                  "i64::MIN % -1, null == null only constant, and the over-acceptance null < null = finding F30), verify_code_return_type and "
-                  "verify_callback_parameter_type = rules D16/D18; proof of soundness of the model w.r.t. the specification for ALL expression "
-                  "forms (model_sound_partial, binding_expression_sound: accepted => typed by Spec.Typing with exactly the operand's type), "
-                  "excluding only `null < null`; the full statement over programs is refuted by the F30 witness "
-                  "(model_sound_full_statement_false). Statements and the acceptance direction are decided by the c05 streams (partial).",
+                  "constant_binary_iff/_type), CONSISTENCY of the two paths with the exact exceptions (QString-typed constants over-rejected "
+                  "= F33, i64::MIN % -1, null == null only on the constant path; the former exception null < null = F30 is repaired: "
+                  "null_ordering_rejected), verify_code_return_type and verify_callback_parameter_type = rules D16/D18; proof of SOUNDNESS of "
+                  "the model w.r.t. the specification (accepted => typed) for EVERY expression form without exclusion (model_sound_expr: typed "
+                  "with exactly the operand's type) and EVERY statement form (model_sound_stmt/_stmts: let/const, blocks, if/else, "
+                  "switch/case/default/break, return) including JavaScript block scoping "
+                  "(declared_in_block_branch_or_clause_not_visible_after, true since the repairs of F32 and F40), and from the top "
+                  "(program_statements_sound, callback_statement_sound, binding_sound_up_to_result_clause). The full statement over whole "
+                  "programs (model_sound_full_statement) is no longer refuted and is proved up to the result clause of bindings and the "
+                  "parameter clause of callback functions, which the c05 streams decide (partial).",
     "level_note": "trusted: Lean kernel; Spec.Typing is the reading of docs/language.md (decisions D1-D20 recorded); models tied by exact IR "
-                  "comparison (ir stream) and by c05-verdict; findings F30 (null ordering folded), F32/F40 (declarations leak out of if "
-                  "branches / switch clauses: uninitialised read), F33 (QString-typed constants over-rejected), F31 (constant list mixing "
-                  "qsTr and bare strings refused; pinned by an upstream test)",
-    "technique": "Lean 4 proof (checker rules = specification tables; simulation-free soundness of the walk for expressions) + "
+                  "comparison (ir stream) and by c05-verdict (total agreement); findings of this property: F30 (null < null folded; repaired "
+                  "9ae7b5c), F32 (let in an unbraced if branch leaked: uninitialised read; repaired a011e08), F40 (the same out of switch "
+                  "clauses; repaired 2a702d4) - all three now regression cases in corpus/C05; known: F31 (constant list mixing qsTr and bare "
+                  "strings refused; pinned by an upstream test), F33 (QString-typed constants over-rejected by the folder)",
+    "technique": "Lean 4 proof (checker rules = specification tables; soundness of the walk w.r.t. the specification by induction over expressions and statements) + "
                  "specification-judged differential check of the real compiler on type-directed programs and their single-edit mutants + "
                  "independent re-typing of the real IR",
 }
